@@ -1115,6 +1115,9 @@ def parse_write(s):
     return neg, items
 
 
+QUICK_TIER = False
+
+
 def model_line(c, out):
     """line for the model driver, or None when the op has no model (GMP wrappers, Erathostene, Miller)"""
     v, a = c["v"], c["args"]
@@ -1132,7 +1135,7 @@ def model_line(c, out):
     if v in ("fermat", "pepin"):
         return None if (v == "pepin" and a[0] > 8) else "%s %d" % (v, a[0])      # the model's powmod on 2^k-bit numbers: k <= 8
     if v == "erat":
-        return "erat %d" % a[0] if (a[0] < (1 << 16) or a[0] % 7 == 3) else None      # the model sieve needs ~0.5 s near 2^20: a sample of the large ones
+        return "erat %d" % a[0] if (a[0] < (1 << 16) or a[0] % 29 == 3) else None      # the model sieve needs ~0.5 s near 2^20: a sample of the large ones
     if v == "ipp.alias":
         return "ipp.alias %d" % a[0]
     if v == "divisors.lf.alias":
@@ -1184,6 +1187,9 @@ def model_line(c, out):
     if v in ("divisors.lf", "divisors.lf.list"):
         return "divisors.lf " + " ".join(map(str, a))
     if v == "ipp":
+        f = c.get("fac")
+        if QUICK_TIER and a[0].bit_length() > 9000 and f and min(f) < 1009 and f != {997: 1009}:
+            return None      # quick tier: the model's multiplicity loop is quadratic (3 s per 10^4-bit power of a table prime): one of them, the others in thorough
         return "ipp %d" % a[0]
     return None
 
@@ -1615,6 +1621,8 @@ def run_parallel(binary, lines, nproc, timeout=1500):
 # ------------------------------------------------------------------ main
 
 def main(tier, replay=None):
+    global QUICK_TIER
+    QUICK_TIER = tier == "quick"
     chk = vf.Check("C12", tier, "proof")
     install_frag_findings()
     rng = vf.Rng(chk.seed)
@@ -1650,12 +1658,18 @@ def main(tier, replay=None):
     if err:
         chk.broke("translation of the prime tables / constants from the source failed: " + err)
     # 1. proofs
-    res = vf.coq_check_props(AREA, timeout=900)
-    chk.proof_result(res, AREA)
-    # never a silent "0 discharged": whatever the reason (build did not run, Properties.v without theorems, generated
-    # files missing), theorems that are not discharged are a broken obligation
-    if (chk.cov["discharged"] != chk.cov["obligations"] or chk.cov["obligations"] < 1) and not chk.broken:
-        chk.broke("coq/C12: %d of %d theorems discharged" % (chk.cov["discharged"], chk.cov["obligations"]), res.get("log", ""))
+    inconclusive = chk.cov.setdefault("inconclusive_streams", [])      # time-outs of our own tooling (machine load): recorded, never a violation
+    res = vf.coq_check_props(AREA, timeout=2700)
+    if not res["ok"] and "[timeout after" in res.get("log", "") and not res["forbidden"]:
+        # the Coq build did not finish within 45 minutes (a cold build takes ~3 minutes on an idle machine): inconclusive, not a broken proof
+        inconclusive.append("coq build of coq/C12 timed out; the theorems were not re-checked in this run")
+        chk.cov["obligations"] += len(res["theorems"])
+    else:
+        chk.proof_result(res, AREA)
+        # never a silent "0 discharged": whatever the reason (build did not run, Properties.v without theorems, generated
+        # files missing), theorems that are not discharged are a broken obligation
+        if (chk.cov["discharged"] != chk.cov["obligations"] or chk.cov["obligations"] < 1) and not chk.broken:
+            chk.broke("coq/C12: %d of %d theorems discharged" % (chk.cov["discharged"], chk.cov["obligations"]), res.get("log", ""))
     lap("coq")
     # 2. executables
     drv, l1 = vf.ocaml_build(AREA) if os.path.exists(os.path.join(vf.coq_dir(AREA), "ocaml", "model.ml")) else (None, "extraction did not run")
@@ -1682,7 +1696,10 @@ def main(tier, replay=None):
     cases = gen_cases(rng, tier, chk, K)
     lap("generate")
     impl_in = "".join("%s %s\n" % (c["v"], " ".join(str(x) for x in c["args"])) for c in cases)
-    rc, iout, ierr = vf.run_lines(himpl, impl_in, timeout=1500, args=["12" if tier == "quick" else "90"])
+    rc, iout, ierr = vf.run_lines(himpl, impl_in, timeout=3000, args=["12" if tier == "quick" else "90"])
+    if rc == 124 and "[timeout]" in ierr:
+        inconclusive.append("the implementation harness did not finish %d cases within 50 minutes (machine load): no verdict from this run" % len(cases))
+        return chk.finish()
     if rc != 0 or len(iout) != len(cases):
         bad = cases[len(iout)] if len(iout) < len(cases) else None
         chk.broke("implementation harness failed (rc=%s, %d/%d lines); next case: %s" % (rc, len(iout), len(cases), bad and (bad["v"], bad["args"])), ierr)
@@ -1696,8 +1713,10 @@ def main(tier, replay=None):
             mlines.append(ml); midx.append(i)
     mout = {}
     if drv:
-        rc, mo, merr = run_parallel(drv, mlines, min(12, vf.NCPU), timeout=1500)
-        if rc != 0 or len(mo) != len(mlines):
+        rc, mo, merr = run_parallel(drv, mlines, min(12, vf.NCPU), timeout=3000)
+        if rc == 124 and "[timeout]" in merr:
+            inconclusive.append("the model driver did not finish within 50 minutes (machine load): no correspondence verdict from this run")
+        elif rc != 0 or len(mo) != len(mlines):
             chk.broke("model driver failed (rc=%s, %d/%d lines)" % (rc, len(mo), len(mlines)), merr)
         else:
             mout = {i: o for i, o in zip(midx, mo)}
